@@ -2,7 +2,8 @@
 From Coq Require Import ZArith List Bool.
 From GCNP Require Import base.GoInt base.Bytes base.Codec gen.Constants_gen model.Prim model.DataType model.MsgTypes
   model.Frame model.MsgCodec model.MsgValid model.FrameValid proofs.PrimProofs proofs.DataTypeProofs
-  proofs.FrameProofs proofs.MsgCodecProofs proofs.FrameFinal proofs.MsgResultsDataType.
+  proofs.FrameProofs proofs.MsgCodecProofs proofs.FrameFinal proofs.MsgResultsDataType
+  gen.BodyPlan_gen proofs.BodyPlanAgree.
 Import ListNotations.
 Open Scope Z_scope.
 
@@ -62,3 +63,16 @@ Proof.
   split; (split; [apply frame_okb_valid; vm_compute; reflexivity|]); (split; [vm_compute; reflexivity|]);
     (split; [vm_compute; reflexivity|vm_compute; reflexivity]).
 Qed.
+
+(* the length computation and the writer of a frame body are the interpretations of plans REGENERATED from
+   frame/encode.go on every run (gen/BodyPlan_gen.v, go2coq unit "bodyplan"), and for every flag byte every optional
+   part is counted by the length computation under exactly the condition under which the writer (and the reader) handle
+   it - each part exactly once - whenever the header's direction equals the message's direction *)
+Theorem C03_body_plans_regenerated : forall mc,
+  (forall h b, uncompressed_body_length mc h b = run_len_plan mc h b len_body_plan) /\
+  (forall h b, encode_body_uncompressed mc h b = run_enc_plan mc h b enc_body_plan) /\
+  (forall flags r p, guards_agree flags r p = true).
+Proof.
+  exact (fun mc => conj (body_length_is_plan mc) (conj (encode_body_is_plan mc) plan_guards_agree)).
+Qed.
+Print Assumptions C03_body_plans_regenerated.
